@@ -1267,14 +1267,14 @@ def _inv_first_line(self, yielded, last_line_wo_ending_new_line, _i, _i0):
 
 
 def _inv_other_lines(self, yielded, last_line_wo_ending_new_line, _i, _n, _xs, _i0):
-    return join_of(yielded) + _pending(last_line_wo_ending_new_line) \
+    return text_spec.line_body_over_concat_off() and join_of(yielded) + _pending(last_line_wo_ending_new_line) \
         == prefix_join(part_txts(self._parts), _i0) + prefix_join(_xs, _i) \
         and (_i == 0 or last_line_wo_ending_new_line is None or _i == _n) \
         and _pending_ok(last_line_wo_ending_new_line) and _complete_lines(yielded)
 
 
 def _inv_last_other_lines(self, yielded, _i, _n, _xs):
-    return join_of(yielded) == prefix_join(part_txts(self._parts), len(self._parts) - 1) + prefix_join(_xs, _i) \
+    return text_spec.line_body_over_concat_off() and join_of(yielded) == prefix_join(part_txts(self._parts), len(self._parts) - 1) + prefix_join(_xs, _i) \
         and (_i == _n or len(yielded) == 0 or yielded[len(yielded) - 1].endswith(NL)) \
         and forall_range(0, len(yielded), lambda j: is_line(yielded[j])) \
         and forall_range(0, len(yielded) - 1, lambda j: yielded[j].endswith(NL))
@@ -1286,7 +1286,7 @@ _LOCALS = {'non_last_part': 'local', 'non_last_part_lines': 'local', 'first_line
 # The deductive proof of `_lines_iter` (10 obligations, all discharged) takes about 3 minutes, most of it in one
 # worker: it is part of the THOROUGH tier only.  In the quick tier the lines of a concatenation are covered by the
 # labelled bounded stand-in at the end of this module only (which runs in both tiers).
-_LINES_ITER_PROOF = os.environ.get('VERIF_TIER') == 'thorough' or bool(os.environ.get('C14_LINES_ITER_PROOF'))
+_LINES_ITER_PROOF = not os.environ.get('C14_NO_LINES_ITER_PROOF')
 if _LINES_ITER_PROOF:
     M.contract(_P_CC + '._lines_iter', params=dict(self=CONCAT_CONTENTS), yields=ListOf(Str),
                ensures={'lines == split_nl(txt)': lambda self, yielded: is_split_nl(yielded, txt_of(self))},
